@@ -139,7 +139,12 @@ func (g *gstate) mint(t *gtok) Op {
 	cap := new(big.Int).Mul(t.max, pow10(t.scale))
 	room := new(big.Int).Sub(cap, t.supply)
 	var amt *big.Int
-	switch r.Weighted(3, 2, 2, 2, 4) {
+	switch r.Weighted(3, 2, 2, 2, 4, 1) {
+	case 5: // far beyond any cap (sdkmath.Int holds 256 bits): refused, never a panic
+		amt = new(big.Int).Lsh(big.NewInt(1), uint(pick(r, 64, 128, 200, 255)))
+		if r.Chance(1, 2) {
+			amt.Sub(amt, big.NewInt(1))
+		}
 	case 0:
 		amt = new(big.Int).Set(room)
 	case 1:
@@ -189,7 +194,9 @@ func (g *gstate) burn(t *gtok) Op {
 	h, b := t.holder(r)
 	var amt *big.Int
 	unit := pow10(t.scale)
-	switch r.Weighted(3, 2, 2, 3, 1) {
+	switch r.Weighted(3, 2, 2, 3, 1, 1) {
+	case 5:
+		amt = new(big.Int).Lsh(big.NewInt(1), uint(pick(r, 128, 255)))
 	case 0: // half a unit
 		amt = new(big.Int).Div(unit, big.NewInt(2))
 	case 1:
@@ -328,7 +335,35 @@ func genC09(r *lib.Rand, tier string) History {
 		n = 8 + r.Intn(60)
 	}
 	h.Steps = append(h.Steps, g.issue(r.Intn(g.n)))
+	// a quarter of the histories: a second token A, of another owner, whose SYMBOL is the first token B's MIN
+	// UNIT (separate name spaces in the code): edits / transfers name A by that string, mints / burns name B
+	var clashA, clashB *gtok
+	if r.Chance(1, 4) {
+		clashB = g.toks[0]
+		op := g.issue(g.other(clashB.owner))
+		op.Sym = clashB.min
+		clashA = g.toks[len(g.toks)-1]
+		clashA.sym = op.Sym
+		h.Steps = append(h.Steps, op)
+	}
 	for len(h.Steps) < n {
+		if clashB != nil && r.Chance(1, 8) {
+			// cross-token attempts through the shared string: A's owner on B's coins, B's owner on A's record
+			x := pick(r, "1", "1000", new(big.Int).Set(pow10(clashB.scale)).String())
+			switch r.Intn(5) {
+			case 0:
+				h.Steps = append(h.Steps, Op{K: "mint", A: clashA.owner, B: -2, Min: clashB.min, Amt: x})
+			case 1:
+				h.Steps = append(h.Steps, Op{K: "burn", A: clashA.owner, Min: clashB.min, Amt: x})
+			case 2:
+				h.Steps = append(h.Steps, Op{K: "edit", A: clashB.owner, Sym: clashA.sym, Nm: 2, Max: "0", Mintable: pick(r, 1, 2)})
+			case 3:
+				h.Steps = append(h.Steps, Op{K: "transfer", A: clashB.owner, B: g.other(clashB.owner), Sym: clashA.sym})
+			default:
+				h.Steps = append(h.Steps, Op{K: "mint", A: clashB.owner, B: -2, Min: clashA.sym, Amt: x}) // = B's own coin: the owner's regular mint
+			}
+			continue
+		}
 		if r.Chance(1, 14) {
 			h.Steps = append(h.Steps, g.malformed())
 			continue
